@@ -1,1 +1,34 @@
 // verification harness (compiled into ntpd/src/daemon/config/ntp_source.rs under cfg(all(test, pendulum_project_ntpd_rs_verif)))
+//
+// Helper only (no #[test] here): scripting of DNS answers for the spawner harnesses (spawn_pool.rs, spawn_standard.rs)
+// through the crate's own cfg(test) facility `hardcoded_dns_resolve`.  It is an inherent method so that harness
+// modules elsewhere in the crate can call it although `config::ntp_source` is a private module.
+#![allow(clippy::all, dead_code)]
+
+use super::*;
+
+impl NormalizedAddress {
+    /// Makes the NEXT `lookup_host()` on this address answer exactly `answer` (in this order, repetitions
+    /// kept); `None` makes it fail with an I/O error.
+    ///
+    /// `HardcodedDnsResolve::lookup_host` rotates its list (last element to the front) before answering, so the
+    /// list is stored rotated the other way.  A failing lookup is obtained without any network access: with the
+    /// hardcoded answer removed the real resolver is asked for a host name containing a NUL byte, which the
+    /// standard library rejects (InvalidInput) before calling getaddrinfo.
+    pub(crate) fn verif_script_dns(&mut self, answer: Option<Vec<SocketAddr>>) {
+        match answer {
+            Some(mut v) => {
+                if !v.is_empty() {
+                    let first = v.remove(0);
+                    v.push(first);
+                }
+                self.server_name = "pool.verif.test".to_string();
+                self.hardcoded_dns_resolve = Some(HardcodedDnsResolve::from(v));
+            }
+            None => {
+                self.server_name = "unresolvable\0.verif.test".to_string();
+                self.hardcoded_dns_resolve = None;
+            }
+        }
+    }
+}
